@@ -91,6 +91,10 @@ pub struct Plan {
     /// swarm knob: scratchpads carry more than 1 MiB of content
     #[serde(default)]
     pub big_pads: bool,
+    /// swarm knob: register 0 belongs to the fixed big-register owner and every delivery of it carries a share of
+    /// that owner's pre-signed block of ops (two deliveries together hold more than MAX_REG_NUM_ENTRIES/2 each)
+    #[serde(default)]
+    pub big_registers: bool,
     pub steps: Vec<Step>,
 }
 
@@ -169,7 +173,9 @@ fn gen_delivery(rng: &mut Rng, prop: &str, mutable_only: bool, unpaid_bias: bool
             // register ops: 0 owner, 1 listed writer, 2 stranger, 3 / 4 = op NAMING the owner / the listed writer
             // as its source but signed by the stranger's key
             // 5 = validly signed op of the owner written for ANOTHER register (foreign address)
-            _ => if rng.chance(1, 5) { 2 + rng.below(4) as u8 } else { rng.below(2) as u8 },
+            // 6 = the whole delivery is a register on ANOTHER owner-signed base for the same address (its permissions
+            // list the stranger as writer) carrying ops of the stranger: valid on its own, foreign to the held register
+            _ => if rng.chance(1, 5) { 2 + rng.below(5) as u8 } else { rng.below(2) as u8 },
         };
         items.push((id, flag));
     }
@@ -354,6 +360,7 @@ impl Sim for NodeSim {
             collide,
             open_registers: rng.chance(1, 5),
             big_pads: ctx.property == "C07" && rng.chance(1, 25),
+            big_registers: ctx.property == "C07" && ctx.mode != "concurrent" && rng.chance(1, 40),
             n_peers: match rng.below(4) { 0 => rng.urange(7, 18), 1 => rng.urange(19, 40), _ => 24 },
             steps,
         }
